@@ -13,6 +13,7 @@ import (
 	"log"
 	"math/big"
 	mrand "math/rand/v2"
+	"net"
 	"sort"
 	"strings"
 	"sync"
@@ -138,6 +139,20 @@ func (w *World) Bounded(what string, within time.Duration, f func()) bool {
 	}
 	w.Count("blocked: " + what)
 	return false
+}
+
+// LinkOfLocal returns the simulated link whose dialling end has the given local address (nil for
+// transports that do not run over the simulated network).
+func (w *World) LinkOfLocal(local net.Addr) *simnet.Link {
+	if local == nil {
+		return nil
+	}
+	for i := w.Net.LinkCount() - 1; i >= 0; i-- {
+		if lk := w.Net.GetLink(i); lk != nil && lk.A.LocalAddr().String() == local.String() {
+			return lk
+		}
+	}
+	return nil
 }
 
 // Flag is a one-shot event with a value, safe for tasks.
